@@ -67,6 +67,11 @@ def main():
         elif wt:
             sh(['git', '-C', '/repo', 'worktree', 'remove', '--force', wt])
             shutil.rmtree(wt, ignore_errors=True)
+            # the case files of a run that found something are kept by the driver for inspection; the replay file is what
+            # matters here, so drop them (tens of GB over a whole seeded suite otherwise)
+            import glob
+            for d in glob.glob(os.path.join(ROOT, 'build', 'run', '*', '*seedrun-%s_*' % sid)):
+                shutil.rmtree(d, ignore_errors=True)
     # several runs may go on at the same time (builders re-checking their own properties): merge under a lock
     import fcntl
     with open(rp + '.lock', 'w') as lk:
